@@ -679,11 +679,11 @@ class Circuit:
                 started_blocks.add(blk)
             # return control to the loop in order to run any tasks created by start()
             await asyncio.sleep(0)
-            start_ok = True
             self.log_debug("Initializing sequential blocks")
             self._init_sblocks_sync_1()
             await self._init_sblocks_async()
             self._init_sblocks_sync_2()
+            start_ok = True
 
             if self._error is None:
                 self.log_debug("Starting simulation")
@@ -714,7 +714,8 @@ class Circuit:
 
         if started_blocks:
             # if blocks were started (at least some of them), they must be stopped;
-            # save the state first, because stop may invalidate the state information
+            # save the state first, because stop may invalidate the state information;
+            # after a failed start or initialization there is no valid state to be saved
             if start_ok and self.persistent_dict is not None:
                 for blk in started_blocks.intersection(self.getblocks(addons.AddonPersistence)):
                     blk.save_persistent_state()
